@@ -143,7 +143,9 @@ pub fn definition(src: &mut Src, kind: Kind) -> Item {
         }
         Kind::Gate => {
             let name = *src.pick(&["GA", "GB", "GC"]);
-            let text = match src.below(4) {
+            let text = match src.below(5) {
+                // a sequence over two formal qubits that uses only the first
+                4 => format!("DEFGATE {name}(%t) p q AS SEQUENCE:\n    RX(%t) p\n    RZ({v}) p"),
                 0 => format!("DEFGATE {name}:\n    1, 0\n    0, {v}"),
                 1 => format!("DEFGATE {name} AS PERMUTATION:\n    {}", if v % 2 == 0 { "0, 1" } else { "1, 0" }),
                 2 => format!("DEFGATE {name}(%t) p AS PAULI-SUM:\n    Z({v}*%t) p"),
@@ -164,7 +166,7 @@ pub fn definition(src: &mut Src, kind: Kind) -> Item {
     }
 }
 
-const BODY: [&str; 24] = [
+const BODY: [&str; 28] = [
     "X 0",
     "CNOT 0 1",
     "RX(pi/2) 1",
@@ -189,6 +191,12 @@ const BODY: [&str; 24] = [
     "RESET 3",
     "NOP",
     "SET-PHASE 9 \"a\" 1.0",
+    // invocations of the generated gate definitions (GA, GB, GC), with one and with two qubits: a
+    // sequence definition of the matching arity expands them, anything else leaves them alone
+    "GA(0.5) 4",
+    "GB(1) 0",
+    "GA(0.5) 0 11",
+    "GC(0.25) 12 1",
 ];
 
 pub fn body(src: &mut Src) -> Item {
@@ -202,7 +210,7 @@ pub fn straight_body(src: &mut Src) -> Item {
         if !matches!(it.instr, Instruction::Label(_) | Instruction::Jump(_) | Instruction::JumpWhen(_) | Instruction::JumpUnless(_) | Instruction::Halt()) {
             return it;
         }
-        // control-flow entries are 3 of 24; a zero word never lands on one, so this terminates
+        // control-flow entries are 3 of 28; a zero word never lands on one, so this terminates
         if src.exhausted() {
             return item("NOP".to_string());
         }
